@@ -324,11 +324,83 @@ def check_invert(workroot):
     return dict(exponent="p-2", ir_steps=it.steps)
 
 
+class _Done(Exception):
+    pass
+
+
+def check_bounds(workroot):
+    """limb bounds along the ladder (inductive): with every limb of the working state at most TIGHT at an iteration
+    boundary, one whole iteration of the REAL kernels (limb mode: polynomials + intervals) never wraps a machine word
+    and ends with every limb of the state at most TIGHT again; the initial state satisfies the bound"""
+    from . import limb
+    TIGHT = (1 << 51) + (1 << 13)
+    wd = os.path.join(workroot, "ladder-x25519")
+    ll = os.path.join(wd, "linked.ll")
+    if not os.path.exists(ll):
+        build.build_module(wd, ["crypto_scalarmult/curve25519/ref10/x25519_ref10.c", "sodium/utils.c"], opt=build.OPT + ["-fno-inline-functions"])
+    mod = ir.parse_module(open(ll).read())
+    T.MODE = "term"
+    limb.reset()
+    it = interp.Interp(mod, None)
+    state = {"calls": 0, "ptrs": [], "fresh": 0, "worst": 0}
+
+    def limbs_of(p):
+        return [limb.lift(it.load_bytes(interp.Ptr(p.obj, p.off + 8 * i), 8, "bounds"), 64) for i in range(5)]
+
+    def set_fresh(p, tag):
+        state["fresh"] += 1
+        for i in range(5):
+            it.store_bytes(interp.Ptr(p.obj, p.off + 8 * i), limb.var("%s%d_%d" % (tag, state["fresh"], i), 64, 0, TIGHT), 8, "bounds")
+
+    def cswap(it_, a):
+        f, g = a[0], a[1]
+        k = state["calls"] // 2
+        if k <= 1:
+            if state["calls"] % 2 == 0 and k == 0:
+                state["ptrs"] = [f, g]
+            elif k == 0:
+                state["ptrs"] += [f, g]
+        if state["calls"] % 2 == 0 and k >= 1:
+            for p in state["ptrs"]:
+                for x in limbs_of(p):
+                    if x.mod or x.lo < 0 or x.hi > TIGHT:
+                        raise Mismatch("limb bound not re-established at the iteration boundary: [%d, %d] > %d" % (x.lo, x.hi, TIGHT))
+                    state["worst"] = max(state["worst"], x.hi)
+            if k == 2:
+                raise _Done()
+        if state["calls"] % 2 == 1:
+            # both swaps seen: continue from an arbitrary state within the bound (a swap only exchanges the elements)
+            for j, p in enumerate(state["ptrs"]):
+                set_fresh(p, "s%d_" % j)
+        state["calls"] += 1
+        return None
+    N = lambda n: xname(it, n)
+    it.stubs[N("fe25519_cswap")] = cswap
+    it.stubs[N("has_small_order")] = lambda it_, a: 0
+
+    def frombytes(it_, a):
+        # fe25519_frombytes yields limbs below 2^51 (C05 fe-bytes obligation)
+        for i in range(5):
+            it.store_bytes(interp.Ptr(a[0].obj, a[0].off + 8 * i), limb.var("u%d" % i, 64, 0, (1 << 51) - 1), 8, "bounds")
+    it.stubs[N("fe25519_frombytes")] = frombytes
+    q = it.new_buffer(32, "q", False, [0] * 32)
+    n = it.new_buffer(32, "n", False, [0x40] * 32)
+    p = it.new_buffer(32, "p", False, [9] + [0] * 31)
+    try:
+        it.call(_name(it, "crypto_scalarmult_curve25519_ref10"), [q, n, p])
+        raise Mismatch("the ladder finished before two iteration boundaries were seen")
+    except _Done:
+        pass
+    if limb.C.wraps:
+        raise Mismatch("a kernel may wrap a machine word inside a ladder step: %r" % (limb.C.wraps[:2],))
+    return dict(iterations_checked=2, worst_boundary_limb=hex(state["worst"]), bound=hex(TIGHT), ir_steps=it.steps)
+
+
 def run(which, workroot):
     res = {"target": which, "status": "inconclusive", "detail": "", "wall_s": 0.0}
     t0 = time.time()
     try:
-        info = check_ladder(workroot) if which == "x25519-ladder-rfc7748" else check_invert(workroot)
+        info = {"x25519-ladder-rfc7748": check_ladder, "x25519-invert": check_invert, "x25519-ladder-bounds": check_bounds}[which](workroot)
         res.update(info)
         res["status"] = "ok"
     except Mismatch as e:
